@@ -36,8 +36,12 @@ def rel(w: World, p) -> str:
 def run_case(case):
     rng = random.Random(case["seed"])
     cfg = {"mode": "ack", "disp": rng.random() < 0.5, "imm_nak": rng.random() < 0.5, "check_limit": rng.choice([1, 2]), "nak_limit": 2, "ack_limit": 2,
-           "size": 7, "fs": "native", "crc": rng.random() < 0.2}
+           "size": 7, "fs": "native", "crc": rng.random() < 0.2,
+           # every third history: the user overwrites the attributes of every parameter object its callbacks receive (after reading them)
+           "scribble_user": case["seed"] % 3 == 0}
     viol, obs = [], {}
+    if cfg["scribble_user"]:
+        obs["histories_with_user_editing_indication_parameters"] = 1
     with World(cfg) as w:
         D = w.D
         sb = w.sandbox
@@ -242,5 +246,5 @@ def _brief(x):
     return {"len": len(x), "hex": bytes(x[:24]).hex()}
 
 
-REQUIRED = {"writes_applied_and_compared": 2000, "metadata_accepted": 500, "deletions_expected": 20, "file_data_before_metadata": 100,
+REQUIRED = {"histories_with_user_editing_indication_parameters": 300, "writes_applied_and_compared": 2000, "metadata_accepted": 500, "deletions_expected": 20, "file_data_before_metadata": 100,
             "mutating_filestore_calls_checked": 2000, "transactions_with_metadata_finished": 300}
